@@ -12,6 +12,7 @@ import io
 import re
 
 from .. import core, families, routes as R
+RT = R
 from ..util import CLASSES, STREAMS, obs
 
 PROPERTY = 'C19'
@@ -46,12 +47,17 @@ def shards(tier, seed):
         for L in (340, 1000):
             out.append(dict(kind='pp', bits=('10111100101101001' * 70)[:L], lsb0=mode[0], no_color=mode[1], wmax=200, wstep=7 if not q else 13))
     out.append(dict(kind='array'))
+    out.append(dict(kind='colour', depth=3 if q else 5))
     return out
+
+
+_CTX = [None]
 
 
 def run_shard(shard, acc):
     bs = core.import_bitstring()
     saved = bs.options.no_color
+    _CTX[0] = RT.Ctx()
     try:
         with core.watchdog(2400):
             k = shard['kind']
@@ -64,11 +70,15 @@ def run_shard(shard, acc):
                         str_repr(bs, acc, d)
             elif k == 'pp':
                 pp_all(bs, acc, shard)
+            elif k == 'colour':
+                colour_histories(bs, acc, shard['depth'])
             else:
                 arrays(bs, acc)
     finally:
         bs.options.no_color = saved
         core.set_options()
+        _CTX[0].close()
+        _CTX[0] = None
 
 
 def dsrc(cls, d, pos=0):
@@ -119,6 +129,27 @@ def str_repr(bs, acc, d):
                     m = re.match(r"^0x([0-9a-f]+)\.\.\.$", st[1])
                     if not m or format(int(d[:maxbits], 2), f'0{maxbits // 4}x') != m.group(1):
                         acc.violation('str', 'value', dict(cls=cls, bits=f'{L} bits', lsb0=lsb0, group='truncated-prefix'), '\n'.join(pre + ["# truncated str() does not show the first MAX_CHARS hex digits", "assert False"]), None, st[1][:40])
+        # the same round trips on objects that are windows onto a longer source or derived objects (str() must show the window's bits;
+        # repr() of a file-backed object names the file and the length, and evaluating it reopens the file)
+        if 0 < L <= 70 and _CTX[0] is not None:
+            for ri, r in enumerate(('file_len', 'file_off3_len', 'file_handle_len', 'bytes_off3', 'bytesio', 'stepslice', 'bitarray_le')):
+                cls = ('Bits', 'ConstBitStream')[(L + ri) % 2]
+                core.set_options(lsb0=False if r == 'stepslice' else lsb0)
+                v = RT.build(bs, r, cls, d, _CTX[0])
+                core.set_options(lsb0=lsb0)
+                if v is None:
+                    continue
+                st, rp = obs(lambda: str(v)), obs(lambda: repr(v))
+                back = obs(lambda: bs.Bits(st[1]).bin) if st[0] == 'ok' else st
+                ev = obs(lambda: eval(rp[1], dict(ns))) if rp[0] == 'ok' else rp
+                acc.step('str', 1, nontrivial=1, ok=1)
+                acc.step('repr', 1, nontrivial=1, ok=1)
+                good = back == ('ok', d) and ev[0] == 'ok' and type(ev[1]).__name__ == cls and ev[1].bin == d
+                if not good:
+                    acc.violation('str' if back != ('ok', d) else 'repr', 'value', dict(cls=cls, bits=d, lsb0=lsb0, route=r, group=f'view|{r}'),
+                                  '\n'.join([RT.SNIPPET_PRELUDE, "from bitstring import Bits, BitArray, ConstBitStream, BitStream", f"s = {RT.source(r, cls, d)}", f"bitstring.options.lsb0 = {lsb0}",
+                                             f"assert bitstring.Bits(str(s)).bin == {d!r}, str(s)", f"r = eval(repr(s))", f"assert type(r) is type(s) and r.bin == {d!r}, repr(s)"]),
+                                  d, (str(back)[:60], str(ev)[:60]))
         acc.outcome(('str', L, d[:12]))
     core.set_options()
     if L == 7:
@@ -315,6 +346,46 @@ def one_pp(bs, acc, s, cls, d, fmt, width, sep, so, lsb0, no_color):
     acc.outcome(('pp', fmt, width % 16, sep, so, len(text) % 64))
     if len(acc.samples) < 2 and fmt == 'hex, bin' and width == 40:
         acc.sample(dict(cls=cls, bits=d[:64], fmt=fmt, width=width, sep=sep, show_offset=so, lsb0=lsb0, no_color=no_color, output=text[:200]))
+
+
+def colour_histories(bs, acc, depth):
+    """Every sequence of <= depth settings of options.no_color, a pp() after each: with no_color set the output has no escape sequence whatever was
+    printed before; apart from escape sequences the text never depends on the setting (state kept by the colouring machinery must not leak)."""
+    import itertools
+    calls = [("s.pp(stream=out)", lambda s, out: s.pp(stream=out)), ("s.pp('bin, hex', width=40, stream=out)", lambda s, out: s.pp('bin, hex', width=40, stream=out)),
+             ("a.pp(stream=out)", None), ("s.pp('hex', show_offset=False, stream=out)", lambda s, out: s.pp('hex', show_offset=False, stream=out))]
+    ref = {}
+    n = 0
+    for k in range(1, depth + 1):
+        for hist in itertools.product((True, False), repeat=k):
+            for ci, (src, _) in enumerate(calls):
+                bs.options.no_color = True
+                s = bs.Bits(bin='101100100000000111000110')
+                a = bs.Array('uint8', [1, 2, 255])
+                text = None
+                for setting in hist:
+                    bs.options.no_color = setting
+                    out = io.StringIO()
+                    eval(src, dict(s=s, a=a, out=out))
+                    text = out.getvalue()
+                    n += 1
+                    plain = re.sub(r'\x1b\[\d+m', '', text)
+                    bad = None
+                    if setting and '\x1b' in text:
+                        bad = 'escape sequence although options.no_color is set'
+                    elif ref.setdefault(ci, plain) != plain:
+                        bad = 'text differs between colour settings / histories'
+                    if bad:
+                        acc.violation('pp', 'value', dict(history=list(hist), call=src, problem=bad, group=f'colour-history|{ci}'),
+                                      '\n'.join(["import bitstring, io, re", "s = bitstring.Bits(bin='101100100000000111000110')", "a = bitstring.Array('uint8', [1, 2, 255])", "texts = []"] +
+                                                [line for st in hist for line in (f"bitstring.options.no_color = {st}", "out = io.StringIO()", src, f"texts.append(({st}, out.getvalue()))")] +
+                                                ["assert all('\\x1b' not in t for nc, t in texts if nc), texts", "assert len({re.sub(r'\\x1b\\[\\d+m', '', t) for nc, t in texts}) == 1"]),
+                                      'no escape sequences when no_color is set; same text otherwise', bad)
+                        break
+            acc.state(('colour-history', hist))
+    acc.step('pp', n, nontrivial=n, ok=n)
+    acc.outcome(('colour-history', depth))
+    acc.sample(dict(event=f"all sequences of <= {depth} settings of options.no_color with a pp() after each, 4 pp forms"))
 
 
 def arrays(bs, acc):
